@@ -486,6 +486,42 @@ def scope_by_loop(prog, bi, sl, bid, st):
     return bool(pushes) and all(bb in ok_blocks for bb in pushes)
 
 
+def full_page_gate(prog, root):
+    """a closure / branch of the list handler compares the number of returned resources with the paging's size"""
+    sl = Slicer(prog)
+    A = prog.anchors
+    for bid in prog.cone(root, follow=("closure",)):
+        bi = prog.info(bid)
+        if bi is None:
+            continue
+        for blk in bi.body.blocks:
+            if blk.cleanup:
+                continue
+            for st in blk.stmts:
+                if st.k == "assign" and st.rv.k == "bin" and st.rv.j["op"] in ("Lt", "Le", "Gt", "Ge", "Eq", "Ne"):
+                    ss = [sl.of_resolved(bid, o) for o in st.rv.ops]
+                    lens = [any(c.split("::")[-1] == "len" for c in x.calls) for x in ss]
+                    sizes = [A.cell("Paging", "size") in x.fields or any(c.endswith("Paging::size") for c in x.calls) for x in ss]
+                    if (lens[0] and sizes[1]) or (lens[1] and sizes[0]):
+                        return True
+    return False
+
+
+def takes_exactly_size(prog):
+    """every listing pipeline cuts its page with take(paging.size()) -- the size itself, not something derived from it"""
+    n = 0
+    for bid in listing_bodies(prog):
+        bi, st, sl = pipeline(prog, bid)
+        if "take" not in st:
+            return False
+        t = bi.call_at(st["take"])
+        o = bi.trace(t.args[1])
+        if not (o.kind == "call" and bi.call_at(o.data).callee is not None and bi.call_at(o.data).callee.target.endswith("Paging::size")):
+            return False
+        n += 1
+    return n >= 3
+
+
 @rule("C13", "R13.2", "the three listing pipelines are siblings: scope filter, sort, skip(offset), take(size), next page", floor=3)
 def r13_2(prog, out):
     A = prog.anchors
@@ -666,6 +702,10 @@ def r13_2(prog, out):
                 continue
             names = local_chain_to_offset(hi, tok[1])
             gate = sorted(names & {"filter", "and_then", "take_if", "xor", "then", "then_some", "zip", "and", "or_else", "take", "filter_map"})
+            if gate and full_page_gate(prog, h.root) and takes_exactly_size(prog):
+                out.holds(key, hi.loc(tok[0]), "the token is withheld when the page is shorter than the requested size, and every listing cuts its page with "
+                          "take(size) unchanged: a short page is the last page")
+                continue
             if gate:
                 out.violation(key, hi.loc(tok[0]), "between the page's offset and the next page token sits %s(): the token is withheld on a condition other than `the page "
                               "is empty`, so a walk can stop before every resource was listed (e.g. a page capped below the requested size looks like the last page)" % gate[0])
